@@ -72,6 +72,23 @@ def generators(core):
         else:
             raise Miss("list arm of decode_recursive: unknown vector initialisation %r" % arg)
         core.emit_n("pv_list_prealloc", mode, "how the list arm of decode_recursive sizes its vector: 0 = with_capacity(count) (count is input), 1 = with_capacity(min(count, remaining bytes)), 2 = no reservation (Vec::new)")
+        # nesting-depth limit of the decoder: both container arms must refuse at `depth >= MAX_PROPERTY_NESTING`
+        # and recurse with `depth + 1`
+        mm = re.search(r"\bconst\s+MAX_PROPERTY_NESTING\s*:\s*usize\s*=\s*([^;]+);", t)
+        ma0 = [a for n, a in arms(dec, "decode_recursive") if n == enc_tag["Map"]][0]
+        chk = re.compile(r"if depth >= MAX_PROPERTY_NESTING \{\s*return Err\(DecodeError::TooDeep\);\s*\}")
+        if mm:
+            if not (chk.search(la) and chk.search(ma0)):
+                raise Miss("MAX_PROPERTY_NESTING exists but the list/map arms of decode_recursive do not both refuse at depth >= MAX_PROPERTY_NESTING")
+            if dec.count("decode_recursive(&bytes[pos..], depth + 1)") != 2 or "Self::decode_recursive(bytes, 0)" not in t:
+                raise Miss("decode_recursive: children are not decoded at depth + 1 / top level not at depth 0")
+            core.emit_n("pv_nesting_limited", 1, rel + " decode_recursive refuses lists/maps at depth >= MAX_PROPERTY_NESTING")
+            core.emit_n("pv_max_nesting", core.expr(mm.group(1)), rel + " MAX_PROPERTY_NESTING")
+        else:
+            if "depth" in dec:
+                raise Miss("decode_recursive mentions a depth but MAX_PROPERTY_NESTING is not defined")
+            core.emit_n("pv_nesting_limited", 0, rel + " decode_recursive has no nesting-depth limit")
+            core.emit_n("pv_max_nesting", 0, rel + " (no MAX_PROPERTY_NESTING)")
         ma = [a for n, a in arms(dec, "decode_recursive") if n == enc_tag["Map"]][0]
         if "BTreeMap::new()" not in ma or "with_capacity" in ma:
             raise Miss("map arm of decode_recursive no longer builds a plain BTreeMap::new()")
@@ -116,6 +133,15 @@ def generators(core):
         if not m:
             raise Miss("ManifestSwitch arm: `payload.len() < segments_end + K` not found")
         core.emit_n("wal_manifest_tail_check", int(m.group(1)), rel + " decode_body ManifestSwitch: bytes required after the segment table by the length check (16 are read)")
+        # does encode_body refuse property values the decoder would refuse?
+        try:
+            eb = t[t.index("fn encode_body(&self)"): t.index("fn decode_body(body")]
+        except ValueError:
+            raise Miss("encode_body not found")
+        n_chk = len(re.findall(r"if value\.exceeds_nesting\(nervusdb_api::MAX_PROPERTY_NESTING\) \{[^}]*return Err\(", eb))
+        if n_chk not in (0, 2):
+            raise Miss("encode_body: nesting check present in %d of the 2 property arms" % n_chk)
+        core.emit_n("wal_encode_checks_nesting", 1 if n_chk == 2 else 0, rel + " encode_body: 1 iff SetNodeProperty/SetEdgeProperty refuse a value nested deeper than MAX_PROPERTY_NESTING")
         # what next_record does with the length field
         try:
             nr = t[t.index("fn next_record(&mut self)"): t.index("fn try_read_u32(&mut self)")]
